@@ -53,6 +53,9 @@ def gen_cases(rng, tier, scale):
          ('v5', '{{> p o}}', 'a=1;b=2;', {'p': '{{#each this as |v k|}}{{k}}={{v.n}};{{/each}}'}),
          ('v6', '{{> p l}}', '0=7;1=8;', {'p': '{{#each this as |v k|}}{{k}}={{v.n}};{{/each}}'}),
          ('v7', '{{#with (id o) as |w|}}{{w.a.n}}{{#each w as |v k|}}{{k}}{{v.n}}{{/each}}{{/with}}', '1a1b2', {}),
+         ('v9', '{{#each l as |n|}}{{> q}}{{/each}}', '[7|][8|]', {'q': '[{{n}}|{{@index}}{{@first}}{{@last}}]'}),
+         ('v10', '{{#each o as |n k|}}{{> q}}{{/each}}', '[1|][2|]', {'q': '[{{n}}|{{k}}{{@key}}]'}),
+         ('v11', '{{#with l.[0] as |n|}}{{> q}}{{/with}}|{{#each l as |n|}}{{> q this}}{{/each}}', '[7|]|[7|][8|]', {'q': '[{{n}}|{{@index}}]'}),
          ('v8', '{{#each o as |v k|}}{{k}}={{v.n}};{{/each}}{{#each l as |v k|}}{{k}}={{v.n}};{{/each}}', 'a=1;b=2;0=7;1=8;', {})]
     for cid, t, exp, parts in V:
         cases.append(rcase(cid, t, D, pre=['probes'], partials=parts, entry=4, kind='witness', exp=exp, tags=['derived-collection']))
